@@ -395,11 +395,26 @@ def check_plate_observers(pp, subs, plate, where, case, k=0, slices=("slice(None
     return vs
 
 
+def _arg_names(act):
+    out = []
+    for k in ('src', 'dst', 'obj', 'solvent'):
+        if k in act:
+            out.append(e1.refname(act[k]))
+    return out
+
+
 def m_observers(ctx, pre, act, obs, post):
-    if not obs['ok']:
-        return
     pp, subs = ctx['pp'], ctx['subs']
     vs = []
+    # the objects handed to the call are still values after it (returned or raised): their observers must agree too
+    for name in _arg_names(act):
+        o = pre.get(name)
+        if o is not None and not e1.is_plate(o):
+            vs.extend(check_container_observers(pp, subs, o, f"argument {name} after {e1.act_str(act)}", ctx['case'], ctx['k']))
+            if vs:
+                return vs
+    if not obs['ok']:
+        return
     for name, o in obs['new'].items():
         where = f"after {e1.act_str(act)}: {name}"
         if e1.is_plate(o):
